@@ -262,15 +262,22 @@ def gen_theory(rng, profile='c16'):
         ar = min(ar, len(th.pvars))
         sym = '\\' + rng.choice(['not', 'or', 'and', 'n', 'ceil', 'sugar']) + str(i)
         params = tuple(rng.sample(th.pvars, ar))
-        for _ in range(20):
-            body = _notation_body(rng, th, params)
-            if isinstance(body, str) or body[0] == sym:
-                continue
-            used = t_vars(body)
-            if all(p in used for p in params) or rng.random() < 0.08:
-                break
+        bin_syms = [s_ for s_ in ('\\imp', '\\app') if s_ in th.ctors and len(th.ctors[s_][1]) == 2]
+        if ar == 2 and bin_syms and rng.random() < 0.3:
+            # sugar that IS an implication / application of its two parameters, in either order (e.g. a reversed implication)
+            a_, b_ = params if rng.random() < 0.5 else params[::-1]
+            body = (rng.choice(bin_syms), a_, b_)
+            th.features.add('notation_plain_binary_of_its_parameters')
         else:
-            continue
+            for _ in range(20):
+                body = _notation_body(rng, th, params)
+                if isinstance(body, str) or body[0] == sym:
+                    continue
+                used = t_vars(body)
+                if all(p in used for p in params) or rng.random() < 0.08:
+                    break
+            else:
+                continue
         if isinstance(body, str):
             continue
         th.notations[sym] = (f'{stem(sym)}-is-sugar', params, body)
